@@ -68,4 +68,75 @@ theorem modComp_single (T : Tables) (a : Str) (h : 124 ∉ a) :
 example : modMass T0 (str% "info:x|+1.5") true = .ok (some (3 / 2)) := by decide +kernel
 example : (124 : Nat) ∉ (str% "info:x") := by decide
 
+/-! ## 1. a bare localisation tag `#g1` carries no mass and the empty composition -/
+
+theorem tag_only_zero (T : Tables) (t : Str) (mono : Bool) :
+    parseModMass T (35 :: t) mono = .ok (some (some 0)) := by
+  simp [parseModMass, startsWith, List.isPrefixOf]
+
+theorem tag_only_empty_comp (T : Tables) (t : Str) : parseModComp T (35 :: t) = .ok (some []) := by
+  have hc : convertType (35 :: t) = .str := convertType_hash (by simp)
+  rw [parseModComp_eq, hc]
+  simp [startsWith, List.isPrefixOf]
+
+example : modMass T0 (str% "#g1") true = .ok (some 0) := by decide +kernel
+example : modComp T0 (str% "#g1") = .ok [] := by decide +kernel
+
+/-! ## 2. a localisation tag after a modification does not change its mass / composition -/
+
+/-- `parse("b#tag") = parse("b")` for every non-empty `b` without `#` -/
+theorem tag_neutral (T : Tables) (b t : Str) (mono : Bool) (h : 35 ∉ b) (hne : b ≠ []) :
+    parseModMass T (b ++ 35 :: t) mono = parseModMass T b mono := by
+  rw [parseModMass_eq, parseModMass_noTag T mono h]
+  simp [startsWith_hash_tag t h hne, beforeHash_tag b t h]
+
+/-- the same for `mod_mass` on one alternative … -/
+theorem tag_neutral_modMass (T : Tables) (b t : Str) (mono : Bool) (h : 35 ∉ b) (hne : b ≠ [])
+    (hb : 124 ∉ b) (ht : 124 ∉ t) :
+    modMass T (b ++ 35 :: t) mono = modMass T b mono := by
+  have h1 : 124 ∉ b ++ 35 :: t := by simp [hb, ht]
+  rw [modMass_single T _ mono h1, modMass_single T _ mono hb, tag_neutral T b t mono h hne]
+
+/-- … and in front of further alternatives -/
+theorem tag_neutral_modMass_alt (T : Tables) (b t rest : Str) (mono : Bool) (h : 35 ∉ b) (hne : b ≠ [])
+    (hb : 124 ∉ b) (ht : 124 ∉ t) :
+    modMass T ((b ++ 35 :: t) ++ 124 :: rest) mono = modMass T (b ++ 124 :: rest) mono := by
+  have h1 : 124 ∉ b ++ 35 :: t := by simp [hb, ht]
+  rw [alternatives_first_resolvable T _ rest mono h1, alternatives_first_resolvable T _ rest mono hb,
+    tag_neutral T b t mono h hne]
+
+example : modMass T0 (str% "+1.5#g1") true = modMass T0 (str% "+1.5") true := by decide +kernel
+
+/-- Compositions: `_parse_mod_comp` calls `convert_type` on the text *with* its tag (which is never a number) and cuts the
+tag afterwards. So the tag is neutral exactly when the tag-free text is not a number either. -/
+theorem tag_neutral_comp (T : Tables) (b t : Str) (h : 35 ∉ b) (hne : b ≠ []) (hs : convertType b = .str) :
+    parseModComp T (b ++ 35 :: t) = parseModComp T b := by
+  have hc : convertType (b ++ 35 :: t) = .str := convertType_hash (by simp)
+  rw [parseModComp_eq, hc, parseModComp_str T h hs]
+  simp [startsWith_hash_tag t h hne, beforeHash_tag b t h]
+
+/-- what the tagged text of a *numeric* `b` does: it is treated as a name / id (branch chain), while the bare number
+has no composition. ODDITY of the code: `mod_comp('42#g1')` looks up Unimod id 42, `mod_comp('42')` is "a mass shift,
+no composition". -/
+theorem tag_numeric_comp (T : Tables) (b t : Str) (h : 35 ∉ b) (hne : b ≠ []) :
+    parseModComp T (b ++ 35 :: t) = compStrBody T b := by
+  have hc : convertType (b ++ 35 :: t) = .str := convertType_hash (by simp)
+  rw [parseModComp_eq, hc]
+  simp [startsWith_hash_tag t h hne, beforeHash_tag b t h]
+
+theorem tag_neutral_modComp (T : Tables) (b t : Str) (h : 35 ∉ b) (hne : b ≠ []) (hs : convertType b = .str)
+    (hb : 124 ∉ b) (ht : 124 ∉ t) :
+    modComp T (b ++ 35 :: t) = modComp T b := by
+  have h1 : 124 ∉ b ++ 35 :: t := by simp [hb, ht]
+  rw [modComp_single T _ h1, modComp_single T _ hb, tag_neutral_comp T b t h hne hs]
+
+/-- a table with one Unimod entry: id 42, composition H2 -/
+def T1 : Tables := { T0 with unimod := [⟨str% "42", str% "Foo", [], none, none, some (str% "H2")⟩] }
+
+example : convertType (str% "Foo") = .str := by decide
+example : modComp T1 (str% "Foo#g1") = modComp T1 (str% "Foo") := by decide +kernel
+-- the oddity, on the model: with the tag the number is an id, without it has no composition
+example : modComp T1 (str% "42#g1") = .ok [(str% "H", Num.ofInt 2)] := by decide +kernel
+example : modComp T1 (str% "42") = .error .invalidComp := by decide +kernel
+
 end C10Generic
